@@ -255,15 +255,15 @@ Print Assumptions C14_spanning_extent_concat.
 Definition ex_cfg : cfg := {| c_le := true; c_is64 := true; c_etype := "ET_DYN"; c_machine := "EM_X86_64" |}.
 Definition ex_core : cfg := {| c_le := false; c_is64 := false; c_etype := "ET_CORE"; c_machine := "EM_386" |}.
 Definition ex_notes : list note :=
-  [ {| n_name := Some [65; 66]; n_npad := [0x55]; n_type := 7; n_desc := DRaw [1; 2; 3]; n_dpad := [0x66] |};
-    {| n_name := Some GNU; n_npad := []; n_type := 5;
+  [ {| n_name := Some [65; 66]; n_nextra := []; n_npad := [0x55]; n_type := 7; n_desc := DRaw [1; 2; 3]; n_dpad := [0x66] |};
+    {| n_name := Some GNU; n_nextra := []; n_npad := []; n_type := 5;
        n_desc := DProps [ (GWord 0xc0000002 3, [9; 9; 9; 9]); (GStack 0x100000, []); (GRaw 2 [], []) ];
        n_dpad := [] |};
-    {| n_name := Some GNU; n_npad := []; n_type := 3; n_desc := DBuildId [0xde; 0xad; 0xbe]; n_dpad := [7] |};
+    {| n_name := Some GNU; n_nextra := []; n_npad := []; n_type := 3; n_desc := DBuildId [0xde; 0xad; 0xbe]; n_dpad := [7] |};
     (* the header-only final note that the unrepaired loop guard dropped *)
-    {| n_name := None; n_npad := []; n_type := 9; n_desc := DRaw []; n_dpad := [] |} ].
+    {| n_name := None; n_nextra := []; n_npad := []; n_type := 9; n_desc := DRaw []; n_dpad := [] |} ].
 Definition ex_core_notes : list note :=
-  [ {| n_name := Some [67; 79; 82; 69]; n_npad := [1; 2; 3]; n_type := 0x46494c45;
+  [ {| n_name := Some [67; 79; 82; 69]; n_nextra := []; n_npad := [1; 2; 3]; n_type := 0x46494c45;
        n_desc := DFile 4096 [(0x1000, 0x2000, 0); (0x3000, 0x4000, 1)] [[47; 97]; [98]]; n_dpad := [5; 5; 5] |} ].
 
 Example C14_ex_wf :
@@ -324,7 +324,7 @@ Example C14_ex_odd_word_props :
   let ps := [ (GRaw 0xc0000002 [1; 2; 3; 4; 5; 6; 7; 8], []); (GWord 0xc0008002 7, [9; 9; 9; 9]);
               (GRaw 0xc0000000 [], []); (GStack 0x2000, []); (GRaw 0xc0010001 [1; 2; 3; 4; 5; 6; 7; 8; 9; 10; 11; 12], [5; 5; 5; 5]);
               (GWord 0xc0000002 3, [9; 9; 9; 9]) ] in
-  let n := {| n_name := Some GNU; n_npad := []; n_type := 5; n_desc := DProps ps; n_dpad := [] |} in
+  let n := {| n_name := Some GNU; n_nextra := []; n_npad := []; n_type := 5; n_desc := DProps ps; n_dpad := [] |} in
   wf_notes (scfg_of ex_cfg) [n] = true /\
   iter_notes ex_cfg (encode_notes (scfg_of ex_cfg) [n]) (fun _ => 0) 0 (zlen (encode_notes (scfg_of ex_cfg) [n]))
   = (expected_notes (scfg_of ex_cfg) 0 [n], None) /\
@@ -332,4 +332,17 @@ Example C14_ex_odd_word_props :
   | [o] => match o_desc o with DVProps l => length l = 6%nat | _ => False end
   | _ => False
   end.
+Proof. vm_compute. repeat split; reflexivity. Qed.
+
+(* the owner is the string up to the FIRST NUL of the name field: the Go toolchain's "Go" NUL NUL
+   (namesz 4), and a GNU build id whose name field is "GNU" NUL x y z w (namesz 8) is still GNU's *)
+Example C14_ex_name_extra :
+  let ns := [ {| n_name := Some [71; 111]; n_nextra := [0]; n_npad := []; n_type := 4; n_desc := DRaw [1; 2]; n_dpad := [8; 8] |};
+              {| n_name := Some GNU; n_nextra := [120; 0; 122; 119]; n_npad := []; n_type := 3;
+                 n_desc := DBuildId [0xde; 0xad]; n_dpad := [7; 7] |} ] in
+  wf_notes (scfg_of ex_cfg) ns = true /\
+  iter_notes ex_cfg (encode_notes (scfg_of ex_cfg) ns ++ [1]) (fun _ => 0) 0 (zlen (encode_notes (scfg_of ex_cfg) ns))
+  = (expected_notes (scfg_of ex_cfg) 0 ns, None) /\
+  map o_name (expected_notes (scfg_of ex_cfg) 0 ns) = [Some [71; 111]; Some GNU] /\
+  map o_namesz (expected_notes (scfg_of ex_cfg) 0 ns) = [4; 8].
 Proof. vm_compute. repeat split; reflexivity. Qed.
